@@ -9,6 +9,7 @@
 From Coq Require Import List Arith Bool NArith.
 Import ListNotations.
 From Hy Require Import gen.ParamsC16 model.C16_Reconnect proof.C16_Reconnect model.C16_Split proof.C16_Split.
+From Hy Require Import model.C16_Loss proof.C16_Loss.
 From Hy Require Import corr.C16_Corr model.C16_Trace proof.C16_Accept.
 
 (* Census.  In every state of every run (in particular at every quiescent point) every open factory
@@ -103,6 +104,59 @@ Print Assumptions C16_recoverable_does_not_reconnect.
 Theorem C16_stream_limit_is_recoverable : classify WStreamLimit = RRecov.
 Proof. exact stream_limit_recoverable. Qed.
 Print Assumptions C16_stream_limit_is_recoverable.
+
+(* ---- The ways a connection can die (model/C16_Loss.v).  In the LTS above a loss is one environment action
+   (Kill) and the error f(client) then meets is one raw outcome (WDead) that [classify] turns into
+   ClosedError.  In the code that is wrapIfConnectionClosed applied to the error VALUE quic-go returns, and
+   quic-go ends a connection with one of finitely many error types.  The classification is an oracle input
+   of the model: the row of wrapIfConnectionClosed for every kind of the enum [errkind] is read off the
+   working tree on every run (gen/ParamsC16.v c16_kind_closed), and the harness reports every error value it
+   really meets by kind (a value of no kind, or one classified against the table, breaks the tie).
+
+   The oracle is total over the enum; the recoverable kinds are exactly {stream limit reached}; every
+   terminal kind (idle timeout, handshake timeout, application close by the server or by this side,
+   transport error from the server or found locally, TLS alert, version negotiation failure, stateless
+   reset, transport / socket closed) is wrapped as ClosedError, which is what the LTS does with a dead
+   connection; and the step "f(client) meets an error of kind k, classified by the oracle" IS the Do step of
+   the LTS on the raw outcome the kind stands for, in every state. *)
+Theorem C16_loss_classification_total :
+  (forall k, In k all_kinds /\ kind_of_id (kind_id k) = Some k /\ exists r, wrap_kind k = Some r) /\
+  (forall k, wrap_kind k = Some RRecov <-> k = KStreamLimit) /\
+  (forall k, terminal k = true ->
+     wrap_kind k = Some RClosed /\ raw_of k = Some WDead /\ classify WDead = RClosed) /\
+  (forall s g k w, raw_of k = Some w -> do_kind s g k = step true s (Do g w)).
+Proof.
+  split; [|split; [|split]].
+  - intros k. split; [apply all_kinds_complete|]. split; [apply kind_of_id_id|apply wrap_total].
+  - exact wrap_recoverable_iff.
+  - exact wrap_terminal_closed.
+  - exact do_kind_is_do.
+Qed.
+Print Assumptions C16_loss_classification_total.
+
+(* Reconnect on loss for EVERY terminal kind, with the number of failing calls bounded by one: in any state
+   of any run in which goroutine g is idle, rc is not closed and c is the live current client, let the
+   connection be lost with a terminal error of any kind k.  The next call of g (whatever fault is queued for
+   a reconnect: it makes none) meets that error, returns ClosedError and closes the socket of the dead
+   client - nothing is open, no config evaluated, count unchanged; the call after it evaluates the config
+   once more, connects (count+1), succeeds on the fresh connection, and the fresh socket is the only open
+   one. *)
+Theorem C16_every_loss_kind_reconnects : forall s0 tr s g c k f, starts s0 -> run true s0 tr = Some s ->
+  get_pc s g = PIdle -> closed s = false -> cur s = Some c -> alive s c = true -> terminal k = true ->
+  let sid := length (socks s) in
+  exists s1 s2 s3,
+    step true s (Kill c) = Some (s1, [EKill c]) /\
+    krun s1 (call_dies g f k) = Some (s2, [ESockClose c; ERet g TClosed]) /\
+    cur s2 = None /\ open_sids s2 = [] /\ count s2 = count s /\ ncfg s2 = ncfg s /\
+    krun s2 (call_works g FOk) = Some (s3, [ECfg true; ENew sid; EConnected (S (count s)); ERet g TOk]) /\
+    cur s3 = Some sid /\ alive s3 sid = true /\ count s3 = S (count s) /\ ncfg s3 = S (ncfg s) /\
+    (forall i sk, nth_error (socks s3) i = Some sk -> s_open sk = true -> i = sid).
+Proof.
+  intros s0 tr s g c k f H R. exact (loss_of_every_kind_reconnects s g c k f (starts_reachable s0 tr s H R)).
+Qed.
+Print Assumptions C16_every_loss_kind_reconnects.
+
+(* (hypotheses satisfiable: proof/C16_Loss.v loss_hypotheses_example) *)
 
 (* Close is final: after rc.Close() at any point of any run, whatever happens next, every factory
    socket is closed, configFunc and ConnFactory.New are never called again, the count is frozen, every
